@@ -4,9 +4,10 @@
 "verification" and writes seeded/RESULTS.md."""
 import json, os, re, subprocess, sys, time
 ROOT = os.path.dirname(os.path.dirname(os.path.abspath(__file__)))
-extra = {"C20-m1": ["C07"], "C06-m1": ["C17"], "C12-m1": ["C11"], "C14-m1": ["C09"], "C14-m2": ["C09"], "C07-m1": ["C08"], "C08-m1": ["C07"]}
+extra = {"C05-m3": ["C10", "C14"], "C01-m3": ["C10"], "C04-m4": ["C10"], "C06-m4": ["C10", "C02"], "C09-m3": ["C14"], "C14-m3": ["C10", "C01"], "C20-m4": ["C07"], "C08-m3": ["C16"], "C16-m4": ["C08"], "C19-m3": ["C08"], "C18-m3": ["C09"], "C02-m4": ["C10"], "C20-m1": ["C07"], "C06-m1": ["C17"], "C12-m1": ["C11"], "C14-m1": ["C09"], "C14-m2": ["C09"], "C07-m1": ["C08"], "C08-m1": ["C07"]}
 rows = []
-only = sys.argv[1:]
+only = [a for a in sys.argv[1:] if not a.startswith("--")]
+table_only = "--table-only" in sys.argv
 for d in sorted(os.listdir(os.path.join(ROOT, "seeded"))):
     p = os.path.join(ROOT, "seeded", d)
     if not os.path.isdir(p) or not os.path.exists(os.path.join(p, "patch.diff")):
@@ -14,6 +15,10 @@ for d in sorted(os.listdir(os.path.join(ROOT, "seeded"))):
     if only and d not in only:
         continue
     pid = d.split("-")[0]
+    if table_only:
+        meta = json.load(open(os.path.join(p, "meta.json")))
+        rows.append((d, meta.get("summary", "")[:150].replace("\n", " ").replace("|", "/"), meta.get("verification", {"checks": {}, "demo_passes_on_clean_tree": False, "suite_passes_with_mutant": False})))
+        continue
     checks = [pid] + extra.get(d, [])
     t0 = time.time()
     r = subprocess.run([os.path.join(ROOT, "tools", "seedeval.sh"), p] + checks, capture_output=True, text=True, env=dict(os.environ, SHOW="3"))
@@ -36,7 +41,7 @@ for d in sorted(os.listdir(os.path.join(ROOT, "seeded"))):
     json.dump(meta, open(meta_p, "w"), indent=1)
     rows.append((d, meta.get("summary", "")[:150].replace("\n", " ").replace("|", "/"), ver))
     print(d, ver["checks"], "%.0fs" % (time.time() - t0), flush=True)
-if not only:
+if not only or table_only:
     with open(os.path.join(ROOT, "seeded", "RESULTS.md"), "w") as f:
         f.write("# Seeded mutants and which checks catch them\n\nEach directory holds patch.diff, the demonstration and meta.json (incl. the verification record).\n"
                 "All were confirmed: the stock suite passes with the mutant, the demonstration fails with it and passes without.\n\n")
